@@ -49,6 +49,10 @@ BLOCKS = [
     N(b"Type=1", b"Path=/untitled", b"Host=h.example", b"Port=70"),
     N(b"Name=No Type", b"Path=/notype", b"Host=+", b"Port=+"),
     N(b"Name=Bare Path", b"Type=1", b"Path=/bare"),
+    # new entries whose selector is the selector of a real file of the directory (a mirror on another host; the same
+    # file under a second title, written relative): hiding or overriding the file itself must leave them alone
+    N(b"Name=Mirror Of A", b"Type=0", b"Path=/t/a.txt", b"Host=mirror.example", b"Port=70"), N(b"Name=Second Title For A", b"Type=0", b"Path=a.txt", b"Host=+", b"Port=+", b"Numb=9"),
+    N(b"Name=Mirror Of E", b"Type=0", b"Path=/t/e.txt", b"Host=mirror.example", b"Port=7070", b"Numb=8"),
     # a line longer than any line buffer, followed by more lines of the same block
     O(b"e.txt", b"Abstract=" + (b"long abstract " * 120).strip(), b"Name=After Long Line", b"Numb=5"),
     N(b"Name=" + (b"Long Title " * 100).strip(), b"Type=0", b"Path=/long", b"Host=+", b"Port=+", b"Numb=6"),
